@@ -190,6 +190,11 @@ pub fn gen_len(r: &mut Rng, allow_big: bool) -> usize {
     match r.below(10) {
         0..=4 => *r.pick(&BOUNDARY_LENS),
         5 if allow_big => *r.pick(&BIG_LENS),
+        6 => {
+            // 2^k - 1, 2^k, 2^k + 1: thresholds nobody listed in advance
+            let k = r.below(if allow_big { 18 } else { 10 }) as u32;
+            ((1usize << k) + r.usize(3)).saturating_sub(1)
+        }
         _ => r.usize(300),
     }
 }
